@@ -31,7 +31,34 @@ def gen(ctx):
     return scheds
 
 
+BIGART = [c + " linger" for c in (
+    "bigart e 100000 8192 1", "bigart f 70000 4096 0", f"bigart e {8 * 1048576 + 4096} {16 * 1048576} 1", f"bigart u {9 * 1048576} {16 * 1048576} 0",
+    f"bigart e {3 * 1048576} 65536 0", "bigart e 4051 65536 1", "bigart f 4068 65536 0", f"bigart e {17 * 1048576} {32 * 1048576} 0")]
+
+
+def judge_bigart_session(case, out):
+    """Large binary replies (their payload holds lines that look like protocol lines): whatever arrives, the client's side of the
+    session stays idle, noidle, the picture requests, and at most one idle after them."""
+    import re
+    m = re.search(r"session=(\S*)", out)
+    if not m:
+        return f"{case}: no session recorded: {out[:200]}"
+    ses = m.group(1)
+    if not re.fullmatch(r"idle,noidle(,(readpicture|albumart)(\*\d+)?)+,idle", ses):
+        return (f"loading a picture ({case}): the server saw the lines {ses}; a legal session is idle, noidle, the picture requests one at a "
+                f"time, then one idle once the re-idle delay has passed (nothing else while a reply is in flight, only noidle while the server idles); result: {out[:160]}")
+    return None
+
+
 def run(ctx, only=None):
+    if only is not None and only and isinstance(only[0], str) and only[0].startswith("bigart"):
+        bad = 0
+        for c, o in zip(only, ctx.run_impl(only)):
+            print("case:", c, "\nimpl:", o)
+            if judge_bigart_session(c, o):
+                bad += 1
+                print("VIOLATION property=C05 replay=(this case)", judge_bigart_session(c, o))
+        return 1 if bad else 0
     scheds = only if only is not None else gen(ctx)
     results = L.run_schedules(ctx, scheds)
     dis = L.disagreements(results)
@@ -49,6 +76,11 @@ def run(ctx, only=None):
             v.append(f"after the last reply and more than the re-idle delay the client did not issue idle again (last line {lines[-1]!r})")
         for m in v[:3]:
             fails.append(Failure(r["sched"].model_case(), m + "\n  written: " + " ".join(repr(l) for l in lines[:60]), extra={"impl_case": r["impl_case"]}))
+    if only is None:
+        for c, o in zip(BIGART, ctx.run_impl(BIGART)):
+            m = judge_bigart_session(c, o)
+            if m:
+                fails.append(Failure(c, m, extra={"bigart": True}))
     # select! ties: a change and a request in the same instant (judged by the oracles alone; the built-in server answers)
     ties = L.gen_tie_cases(ctx.rng, 40 if ctx.tier == "quick" else 800) if only is None else []
     if ties:
@@ -76,6 +108,8 @@ def run(ctx, only=None):
 
 def replay(ctx, payload):
     cases = payload.get("cases", [])
+    if cases and cases[0].startswith("bigart"):
+        return run(ctx, only=list(cases))
     if payload.get("extra", {}).get("tie"):
         # a select! tie: the outcome depends on tokio's random branch choice; run it several times
         for c in cases:
